@@ -201,20 +201,26 @@ func ByteName(b byte) string {
 
 // FramingNeighbour is one malformed-by-construction neighbour of a well-formed stream.
 type FramingNeighbour struct {
-	EOL  EOL
-	Kind string // "missing-CR", "missing-LF", "CR-replaced-by-SP", "LF-replaced-by-'X'", "CRLF-swapped", "CR-doubled", ...
-	At   int    // offset of the changed byte in the base stream
-	B    []byte // the neighbour (fresh slice)
+	EOL EOL
+	// Kind is the class used in signatures: "missing-CR", "missing-LF", "CR-replaced-by-LF",
+	// "LF-replaced-by-CR", "CR-replaced-by-SP", "LF-replaced-by-SP", "CR-replaced-by-byte",
+	// "LF-replaced-by-byte" (any other replacement byte), "CRLF-swapped", "CR-doubled",
+	// "LF-doubled".
+	Kind string
+	// Detail names the exact change, e.g. "CR-replaced-by-'X'".
+	Detail string
+	At     int    // offset of the changed byte in the base stream
+	B      []byte // the neighbour (fresh slice)
 }
 
 // FramingNeighbours derives, for ONE framing CRLF of a base stream, every neighbour in which
-// its CR or its LF is deleted, replaced by each byte of repl (a replacement equal to the
-// original byte is skipped; CR is always also replaced by LF and LF by CR), or in which the two
-// are swapped.
+// its CR or its LF is deleted, doubled, replaced by each byte of repl (a replacement equal to
+// the original byte is skipped; CR is always also replaced by LF and LF by CR), or in which the
+// two are swapped.
 func FramingNeighbours(base []byte, e EOL, repl []byte, f func(n *FramingNeighbour)) int {
 	n := 0
-	emit := func(kind string, at int, b []byte) {
-		f(&FramingNeighbour{EOL: e, Kind: kind, At: at, B: b})
+	emit := func(kind, detail string, at int, b []byte) {
+		f(&FramingNeighbour{EOL: e, Kind: kind, Detail: detail, At: at, B: b})
 		n++
 	}
 	for _, which := range []struct {
@@ -223,7 +229,7 @@ func FramingNeighbours(base []byte, e EOL, repl []byte, f func(n *FramingNeighbo
 		other byte
 	}{{"CR", e.Off, '\n'}, {"LF", e.Off + 1, '\r'}} {
 		at := which.at
-		emit("missing-"+which.name, at, append(append([]byte(nil), base[:at]...), base[at+1:]...))
+		emit("missing-"+which.name, "missing-"+which.name, at, append(append([]byte(nil), base[:at]...), base[at+1:]...))
 		seen := map[byte]bool{base[at]: true}
 		for _, r := range append([]byte{which.other}, repl...) {
 			if seen[r] {
@@ -232,11 +238,17 @@ func FramingNeighbours(base []byte, e EOL, repl []byte, f func(n *FramingNeighbo
 			seen[r] = true
 			m := append([]byte(nil), base...)
 			m[at] = r
-			emit(which.name+"-replaced-by-"+ByteName(r), at, m)
+			detail := which.name + "-replaced-by-" + ByteName(r)
+			kind := detail
+			if r != '\r' && r != '\n' && r != ' ' {
+				kind = which.name + "-replaced-by-byte"
+			}
+			emit(kind, detail, at, m)
 		}
+		emit(which.name+"-doubled", which.name+"-doubled", at, append(append(append([]byte(nil), base[:at+1]...), base[at]), base[at+1:]...))
 	}
 	m := append([]byte(nil), base...)
 	m[e.Off], m[e.Off+1] = '\n', '\r'
-	emit("CRLF-swapped", e.Off, m)
+	emit("CRLF-swapped", "CRLF-swapped", e.Off, m)
 	return n
 }
